@@ -116,11 +116,17 @@ class _Resp:
 class SlugsStub:
     """script: {base_url (with trailing slash): {'user': ('unreachable',) | ('status', code),
                                                  'groups': ('unreachable',) | ('status', code, body)}}
-    body: dict (the JSON document) or 'badjson'."""
+    body: dict (the JSON document) or 'badjson'.  `phases`, when given, is a list of such scripts: phase i answers
+    while frame i of the connection is being handled (a service whose answers change during a connection)."""
 
-    def __init__(self, script):
+    def __init__(self, script, phases=None):
         self.script = script
+        self.phases = phases
         self.calls = []
+
+    def set_frame(self, i):
+        if self.phases:
+            self.script = self.phases[min(i, len(self.phases) - 1)]
 
     def get(self, url, timeout=None):
         self.calls.append(url)
@@ -212,6 +218,8 @@ def run_connection(proxy, conn, tls_client_auth=True, auth_settings=None, slugs=
 
     def receive():
         cur.clear()
+        if slugs is not None:
+            slugs.set_frame(len(frames))
         cur['recv0'] = len(conn.recv_sizes)
         data = orig_receive()
         cur['frame'] = bytes(data.buffer)
@@ -272,7 +280,9 @@ def run_spec(proxy, spec, dumps=True, settings_from=None):
     """Run one scripted connection against the real session; returns (obs, conn)."""
     cert = make_cert(list(spec['cert'][0]), spec['cert'][1]) if spec['cert'] is not None else None
     conn = FakeConn(spec['stream'], spec['sizes'], cert)
-    settings, script = [], {}
+    settings = []
+    nph = max([len(p['phases']) for p in spec['plugins'] if p.get('phases')] or [0])
+    scripts = [{} for _ in range(max(nph, 1))]
     for p in spec['plugins']:
         conf = {}
         if p.get('enabled') is not None:
@@ -282,11 +292,14 @@ def run_spec(proxy, spec, dumps=True, settings_from=None):
         settings.append((p['name'], conf))
         if isinstance(p.get('url'), str):
             base = p['url'] if p['url'].endswith('/') else p['url'] + '/'
-            script[base] = {'user': p['user'], 'groups': p['groups']}
+            for i, sc in enumerate(scripts):
+                u, g = (p['phases'][min(i, len(p['phases']) - 1)] if p.get('phases') else (p['user'], p['groups']))
+                sc[base] = {'user': u, 'groups': g}
+    script = scripts[0]
     if settings_from is not None:          # e.g. the list KmipServerConfig produced from a configuration file
         settings = settings_from(settings)
     proxy.eng.clock.t = spec['ts']
-    stub = SlugsStub(script)
+    stub = SlugsStub(script, phases=scripts if nph else None)
     obs = run_connection(proxy, conn, tls_client_auth=spec['tls'], auth_settings=settings, slugs=stub, dumps=dumps)
     obs['recv_sizes'] = list(conn.recv_sizes)
     obs['slugs_calls'] = list(stub.calls)
